@@ -108,6 +108,11 @@ class Interp(Engine):
                 return v.args
             raise Unsupported(f"exception attribute {name}")
         if isinstance(v, Sym):
+            h = getattr(self, "ref_attr_hook", None)  # contract option: a field heap for object REFERENCES (kind ref / oref)
+            if h is not None and v.kind in ("ref", "oref"):
+                r = h(self, v, name, None, False)
+                if r is not NotImplemented:
+                    return r
             return self.models.scalar_attr(self, v, name)
         if isinstance(v, type) and is_repo_class(v):
             r = self.find_method(v, name)
@@ -160,6 +165,8 @@ class Interp(Engine):
         return v
 
     def setattr_(self, v, name, val):
+        if hasattr(v, "__pyvc_setattr__"):  # extension values (pyvc/ext_*.py) with their own attribute store
+            return v.__pyvc_setattr__(self, name, val)
         if isinstance(v, Obj):
             r = self.find_method(v.cls, name)
             if r is not None and r[0] == "prop":
@@ -175,6 +182,10 @@ class Interp(Engine):
                 self.prove(self.site("frame-attr-write"), False, "frame", f"write to field {name} of an input object")
             v.fields[name] = val
             return
+        h = getattr(self, "ref_attr_hook", None)
+        if h is not None and isinstance(v, Sym) and v.kind in ("ref", "oref"):
+            if h(self, v, name, val, True) is not NotImplemented:
+                return
         raise Unsupported(f"attribute store on {type(v).__name__}")
 
     # ------------------------------------------------------------ expressions
@@ -565,10 +576,17 @@ class Interp(Engine):
         self.inline_stack.append(func.key)
         saved = self.cur_frame
         try:
-            return self.run_body(func, fr)
+            res = self.run_body(func, fr)
         finally:
             self.inline_stack.pop()
             self.cur_frame = saved
+        if c is not None and c.ghost_exit is not None and c.options.get("ghost_exit_inlined") and func.key != self.cur_key:
+            # ghost fields of an object are initialised by its constructor's ghost_exit; the same ghost code runs when the
+            # constructor's body is inlined at a call site (ghost code updates ghost state only)
+            v = dict(fr.vars)
+            v["result"] = res
+            c.ghost_exit(self, v, None)
+        return res
 
     def run_body(self, func, fr):
         node = func.node
